@@ -198,7 +198,7 @@ CHECKS = {
     },
 }
 
-HOOK_COMMITS = ["ae50fd9e01837cb81b3f92cee34dfd8774b5c94f"]
+HOOK_COMMITS = ["ae50fd9e01837cb81b3f92cee34dfd8774b5c94f", "8061e6537b601e97c0d304580983a519d8ace356"]
 
 _PENDING = "check not built yet in this session (planned in DESIGN.md); not claimed until its machinery exists"
 NOT_APPLICABLE = {("C%02d" % i): _PENDING for i in range(1, 21) if ("C%02d" % i) not in CHECKS}
